@@ -629,6 +629,8 @@ def run_property(pid, tier, seed, only=None, jobs=None):
     evdir = os.path.join(VERIF, "evidence")
     if only is not None or os.path.abspath(os.environ.get("VERIF_REPO", "/repo")) != "/repo":
         evdir = os.path.join(VERIF, ".cache", "evidence-scratch")
+    if os.environ.get("VERIF_EVIDENCE_DIR"):      # exploration at further seeds must not replace the committed evidence
+        evdir = os.environ["VERIF_EVIDENCE_DIR"]
     os.makedirs(evdir, exist_ok=True)
     with open(os.path.join(evdir, pid + ".json"), "w") as f:
         json.dump(_sanitize(evid), f, indent=1, allow_nan=False, default=_nanfix, sort_keys=True)
